@@ -8,8 +8,8 @@ import (
 	"fmt"
 	"os"
 	"regexp"
-	"runtime"
 	"runtime/debug"
+	"runtime/metrics"
 	"strconv"
 	"strings"
 	"sync"
@@ -178,12 +178,20 @@ func (w *watchdog) disarm() {
 	w.armed = false
 	w.mu.Unlock()
 }
+// memTotal: bytes of memory the Go runtime has mapped (runtime/metrics: no stop-the-world, so it
+// also answers while a goroutine sits in a multi-gigabyte memmove)
+func memTotal() uint64 {
+	s := []metrics.Sample{{Name: "/memory/classes/total:bytes"}, {Name: "/memory/classes/heap/released:bytes"}}
+	metrics.Read(s)
+	if s[0].Value.Kind() != metrics.KindUint64 || s[1].Value.Kind() != metrics.KindUint64 {
+		return 0
+	}
+	return s[0].Value.Uint64() - s[1].Value.Uint64()
+}
+
 func (w *watchdog) loop(grace time.Duration, memLimit uint64, onMem func()) {
-	var ms runtime.MemStats
-	tick := 0
 	for {
 		time.Sleep(20 * time.Millisecond)
-		tick++
 		w.mu.Lock()
 		armed, dl, cancel := w.armed, w.deadline, w.cancel
 		w.mu.Unlock()
@@ -192,14 +200,16 @@ func (w *watchdog) loop(grace time.Duration, memLimit uint64, onMem func()) {
 				w.fired.Store(true)
 				cancel()
 			} else if time.Now().After(dl.Add(grace)) {
+				// neither finished nor cancellable: `resource:mem` if it sits on most of the
+				// memory budget (it was allocating, only slowly on a loaded machine)
+				if memTotal() > memLimit*2/3 {
+					onMem()
+				}
 				w.hang()
 			}
 		}
-		if tick%5 == 0 {
-			runtime.ReadMemStats(&ms)
-			if ms.HeapAlloc > memLimit {
-				onMem()
-			}
+		if memTotal() > memLimit {
+			onMem()
 		}
 	}
 }
